@@ -1,4 +1,4 @@
-\* MODULE MCplain2
+\* MODULE MCfault3
 SPECIFICATION Spec
 CONSTANTS
   Procs <- MCProcs
@@ -11,11 +11,11 @@ CONSTANTS
   CrashBudget = 0
   AdvBudget = 0
   Debris <- NoDebris
-  PreRO <- NoPreRO
-  FrontKind = "plain"
+  PreRO <- MCPreRO
+  FrontKind = "stack"
   KeyShards <- NoKeyShards
-  FaultBudget = 0
+  FaultBudget = 1
 VIEW View
-INVARIANTS InvDirValid InvDebris InvHandle InvNoErr
-PROPERTIES StepImmutable StepReadOnlyFirst StepRemoval StepRegister StepGetLin
+INVARIANTS InvDirValid InvHandle InvNoLeak InvErrOnlyIfFaulted
+PROPERTIES StepImmutable StepReadOnlyFirst StepRemoval StepDurableFirst StepROUntouched
 CHECK_DEADLOCK FALSE
